@@ -174,6 +174,23 @@ func propC14(w *World, r *Report) {
 		r.Check(ci.process.Call.Args[1] == pbase, "M2", "the whole frame buffer is handed to Process", w.InstrPos(ci.process), e.termOf(ci.process.Call.Args[1]).String())
 	}
 	checkHandleConnMarkerCI(w, r, ci, "M2")
+	// "... a camera reset that ends the current recording and restarts detection": the reset reaches the detector and
+	// its rings on every path, and the rings' Reset really rewinds them
+	if mruns, err := getMotionRuns(w); err == nil {
+		checkProcessorResetResetsDetector(w, r, mruns, "M2")
+		if dd := getDetector(w); dd.Err == nil {
+			if kk, err := findKernels(dd); err == nil {
+				checkDetectorResetRings(w, r, dd, kk, "M2")
+			} else {
+				r.Unknown("M2", "detector Reset", "-", err.Error())
+			}
+		} else {
+			r.Unknown("M2", "detector Reset", "-", dd.Err.Error())
+		}
+		checkRingResetAndOldest(w, r, "M2")
+	} else {
+		r.Unknown("M2", "MotionProcessor.Reset", "-", err.Error())
+	}
 	// errors of both reads end the connection
 	for i, c := range []*ssa.Call{ci.probe, ci.rest} {
 		okE := false
@@ -704,7 +721,7 @@ func checkSingleBufferedReader(w *World, r *Report, e *termEnv, rule, construct 
 	nr := 0
 	for _, b := range fn.Blocks {
 		for _, in := range b.Instrs {
-			if c, ok := in.(*ssa.Call); ok && calleeName(c) == "bufio.NewReader" {
+			if c, ok := in.(*ssa.Call); ok && strings.HasPrefix(calleeName(c), "bufio.NewReader") {
 				nr++
 			}
 		}
